@@ -28,10 +28,11 @@ def fpHost (E : Env) (stripSfx : Bool) (r : Split) : Except Err (Option Str) :=
     | some h => if h.isEmpty then .ok (some h) else (fingerprintHost E stripSfx h).map some
     | none => .ok none
 
-/-- the hostname component of `fingerprint_url(url, strip_suffix=…)` -/
+/-- the hostname component of `fingerprint_url(url, strip_suffix=…)`; an unparseable URL comes
+back as a string: no component (`none`) -/
 def fingerprintedHost (E : Env) (stripSfx : Bool) (url : Str) : Except Err (Option Str) :=
   match normalizeUrlSplit E.puny E.parse E.platform fpOpts true (lower url) with
-  | .inl s => if s.length = 5 then .error .attributeError else .error .valueError
+  | .inl _ => .ok none
   | .inr r => fpHost E stripSfx r
 
 /-- the options of the quantifier of C07 for `normalize_url`: the defaults, `normalize_amp` -/
